@@ -302,7 +302,7 @@ class BaseClient:
         return result.event
 
     def trigger_event(self, event: events.BaseEvent):
-        for callback in self.callbacks:
+        for callback in list(self.callbacks):
             if callback.accepts_event(event):
                 try:
                     if asyncio.iscoroutinefunction(callback.callback):
